@@ -1,5 +1,6 @@
 import ParryModel.C08.DriverBase
 import ParryModel.C08.DriverExt
+import ParryModel.C08.DriverBuild
 /-! C08 protocol handlers: `DriverBase` (histories, two-tree and single-tree traversals) and `DriverExt` (round fu3:
 `check_topology`, accessors, `scaled`, early-exit depth-first traversals). -/
 namespace C08
@@ -8,6 +9,9 @@ open Proto
 def handler (fn : String) : Option Handler :=
   match handlerBase fn with
   | some h => some h
-  | none => handlerExt fn
+  | none =>
+    match handlerExt fn with
+    | some h => some h
+    | none => handlerBuild fn
 
 end C08
